@@ -37,8 +37,31 @@ package container
 //@   modifies nothing
 // poll talks to the API server without holding the lock: anything may happen
 // to the queue meanwhile.
-//@ func Queue.poll trusted
+//@ func Queue.poll property C14 safety -bounds,-nil
 //@   modifies all
+//@   # the containers locked by this dispatcher are fetched and applied first,
+//@   # the queued ones second (a container that changes hands between the two
+//@   # requests ends up with its later record), the ones that vanished last;
+//@   # any failed request fails the poll (nothing is concluded from a partial view)
+//@   ghost e1 error = nil
+//@   ghost e2 error = nil
+//@   ghost e3 error = nil
+//@   calls Queue.fetchAll#1: requires $0.Filters[0].Attr == "locked_by_uuid" && $0.Filters[0].Operator == "=" && $0.Filters[0].Operand == iface(auth.UUID) && len($0.Filters) == 1
+//@   calls Queue.fetchAll#1: set e1 = $r1
+//@   calls Queue.fetchAll#2: requires e1 == nil && len($0.Filters) == 2 && $0.Filters[0].Attr == "state" && $0.Filters[0].Operator == "=" && $0.Filters[0].Operand == iface(arvados.ContainerStateQueued) && $0.Filters[1].Attr == "priority" && $0.Filters[1].Operator == ">" && $0.Filters[1].Operand == iface("0")
+//@   calls Queue.fetchAll#2: set e2 = $r1
+//@   calls Queue.fetchAll#3: set e3 = $r1
+//@   calls apply#1: requires e1 == nil && $0 == mine
+//@   calls apply#2: requires e2 == nil && $0 == avail
+//@   calls apply#3: requires e3 == nil && $0 == ended
+//@   # a container is dropped from the queue as "deleted" only after a lookup by
+//@   # uuid came back empty
+//@   calls Queue.delEnt#1: requires e3 == nil && len(ended) == 0
+//@   ensures result1 == nil ==> e1 == nil && e2 == nil && e3 == nil
+//@   loop 2: invariant e1 == nil && e2 == nil && e3 == nil
+//@   loop 3: invariant e1 == nil && e2 == nil && e3 == nil
+//@   loop 4: invariant e1 == nil && e2 == nil && e3 == nil && len(ended) == 0
+//@   loop 5: invariant e1 == nil && e2 == nil && e3 == nil
 
 // poll's "apply" step: of several records fetched for one container during a
 // poll (locked-by-me list first, queued list second, ...) the one fetched LAST
@@ -51,8 +74,20 @@ package container
 //@   at loop 1 back: assert next[upd.UUID].State == upd.State && next[upd.UUID].Priority == upd.Priority
 //@   at loop 1 back: assert *next[upd.UUID] == upd
 
+// fetchAll: every page is appended whole, paging stops only at an empty page,
+// the next page starts after the last UUID received (or at the next offset),
+// and a failed request fails the whole fetch.
+//@ func Queue.fetchAll property C14 safety -bounds,-nil
+//@   ghost rerr error = nil
+//@   calls APIClient.RequestAndDecode#1: requires $1 == "GET" && $2 == "arvados/v1/containers"
+//@   calls APIClient.RequestAndDecode#1: set rerr = $r
+//@   loop 1: invariant rerr == nil
+//@   at loop 1 exit: assert len(list.Items) == 0 && rerr == nil
+//@   ensures result1 == nil ==> rerr == nil
+//@   calls append#1: requires $0 == results && $1 == list.Items
+//@   calls append#2: requires $0 == initialParams.Filters && $1[0].Attr == "uuid" && $1[0].Operator == ">" && $1[0].Operand == iface(list.Items[len(list.Items)-1].UUID)
+
 //@ func Queue.delEnt property C14
-//@   requires cq.current != nil
 //@   modifies map[string]QueueEnt
 //@   ensures !has(cq.current, uuid)
 //@   ensures forall u string :: u != uuid ==> has(cq.current, u) == old(has(cq.current, u)) && cq.current[u] == old(cq.current[u])
